@@ -134,3 +134,20 @@ Theorem C11_source_thin_bodies :
   thin_of "Unflatten<T,NM,N> for &GenericArray<T,NM>" "unflatten" = Some "unsafe { mem :: transmute (self) }" /\
   thin_of "Unflatten<T,NM,N> for &mutGenericArray<T,NM>" "unflatten" = Some "unsafe { mem :: transmute (self) }".
 Proof. repeat split. Qed.
+
+(* ---- T2: the bounds of the trait impls this property's operations come from, as they stand in the source now
+        (coq/gen/GenSigs.v gen_impl_bounds): code that is generic over the lengths / element type and states
+        exactly these bounds can call them ---- *)
+From Coq Require Import String.
+From GA Require Import SigDefs.
+From GAGen Require Import GenSigs.
+Local Open Scope string_scope.
+
+Theorem C11_source_impl_bounds :
+  bounds_of "unsafe Flatten<T,N,M> for GenericArray<GenericArray<T,N>,M>" = Some ["M:ArrayLength"; "N:ArrayLength"; "N:Mul<M>"; "Prod<N,M>:ArrayLength"] /\
+  bounds_of "unsafe Flatten<T,N,M> for &GenericArray<GenericArray<T,N>,M>" = Some ["M:ArrayLength"; "N:ArrayLength"; "N:Mul<M>"; "Prod<N,M>:ArrayLength"] /\
+  bounds_of "unsafe Flatten<T,N,M> for &mutGenericArray<GenericArray<T,N>,M>" = Some ["M:ArrayLength"; "N:ArrayLength"; "N:Mul<M>"; "Prod<N,M>:ArrayLength"] /\
+  bounds_of "unsafe Unflatten<T,NM,N> for GenericArray<T,NM>" = Some ["N:ArrayLength"; "NM:ArrayLength"; "NM:Div<N>"; "Quot<NM,N>:ArrayLength"] /\
+  bounds_of "unsafe Unflatten<T,NM,N> for &GenericArray<T,NM>" = Some ["N:ArrayLength"; "NM:ArrayLength"; "NM:Div<N>"; "Quot<NM,N>:ArrayLength"] /\
+  bounds_of "unsafe Unflatten<T,NM,N> for &mutGenericArray<T,NM>" = Some ["N:ArrayLength"; "NM:ArrayLength"; "NM:Div<N>"; "Quot<NM,N>:ArrayLength"].
+Proof. repeat split. Qed.
